@@ -43,6 +43,7 @@ type step struct {
 type hcase struct {
 	Steps []step `json:"steps"`
 	Reenc bool   `json:"reenc"` // run on the route that adds headers both ways: the proxy re-encodes requests and responses
+	Retry bool   `json:"retry"` // run on the retry_on route: an upstream error answer is retried
 }
 
 const (
@@ -211,6 +212,9 @@ func (e *env) runHop(name string, c hcase) map[string]interface{} {
 	if c.Reenc {
 		e.svc = "c02x"
 	}
+	if c.Retry {
+		e.svc = "c02r"
+	}
 	defer func() { e.svc = "c02" }()
 	conns := map[int]*xc02.Client{}
 	defer func() {
@@ -226,7 +230,7 @@ func (e *env) runHop(name string, c hcase) map[string]interface{} {
 	}
 	reqs := map[int]*rq{}
 	extra := []*rq{} // filler requests of the race steps
-	collisions, diverged, races, inters := 0, 0, 0, 0
+	collisions, diverged, races, inters, uerrs := 0, 0, 0, 0, 0
 	for _, s := range c.Steps {
 		switch s.Op {
 		case "send":
@@ -398,6 +402,25 @@ func (e *env) runHop(name string, c hcase) map[string]interface{} {
 			}
 			fcl.Close()
 			races++
+		case "uerr":
+			// the upstream answers the current attempt of r with an error status and a body of its own; on the retry_on
+			// route the proxy retries (the next attempt arrives upstream) until the budget is used up, then forwards it
+			q := reqs[s.R]
+			if q == nil || q.arr == nil || q.epoch != e.epoch || q.poll() {
+				diverged++
+				continue
+			}
+			n := q.arr.Attempt
+			mark := e.sched.Mark()
+			if !e.up.ReplyError(q.arr.Conn, q.arr.UID, xc02.ErrTok(q.tok, n), q.tok) {
+				diverged++
+				continue
+			}
+			e.awaitTable(mark, q.arr.UID)
+			if a2 := e.up.WaitAttempt(q.tok, n+1, e.w(0), q.poll); a2 != nil {
+				q.arr = a2
+				uerrs++
+			}
 		case "tmo":
 			if q := reqs[s.R]; q != nil {
 				q.wait(e.w(shortMs * time.Millisecond))
@@ -445,7 +468,7 @@ func (e *env) runHop(name string, c hcase) map[string]interface{} {
 	patient := e.settle(pending)
 	time.Sleep(15 * time.Millisecond) // frames that must not come
 	e.tr.Emit(vh.Ev{"ev": "quiesce", "patient": patient})
-	return map[string]interface{}{"name": name, "collisions": collisions, "diverged": diverged, "races": races, "inters": inters, "reenc": c.Reenc, "svc": e.svc, "lost": atomic.LoadInt64(&lost) - e.lost0}
+	return map[string]interface{}{"name": name, "collisions": collisions, "diverged": diverged, "races": races, "inters": inters, "retried_error_answers": uerrs, "reenc": c.Reenc, "svc": e.svc, "lost": atomic.LoadInt64(&lost) - e.lost0}
 }
 
 // runStorm: concurrent pipelined clients on shared downstream connections.
@@ -458,16 +481,18 @@ func (e *env) runStorm(name string, rng *rand.Rand, nconn, workersPerConn, burst
 	nre := 0
 	for i := 0; i < nconn; i++ {
 		e.svc = "c02"
-		if k := rng.Intn(4); k < 2 {
-			e.svc = []string{"c02x", "c02b"}[k]
-			nre += 1 - k
+		if k := rng.Intn(5); k < 3 {
+			e.svc = []string{"c02x", "c02b", "c02r"}[k]
+			if k == 0 {
+				nre++
+			}
 		}
 		conns = append(conns, e.dial())
 	}
 	e.svc = "c02"
 	var freshMu sync.Mutex
 	fresh := func() uint32 { freshMu.Lock(); defer freshMu.Unlock(); return e.freshID() }
-	var total, errs, coll, maxMs int64
+	var total, errs, coll, maxMs, nerr int64
 	var pmu sync.Mutex
 	pending := []*rq{}
 	var wg sync.WaitGroup
@@ -513,6 +538,10 @@ func (e *env) runStorm(name string, rng *rand.Rand, nconn, workersPerConn, burst
 							q.short, beh, tmo = true, "hold", 40+int32(r.Intn(40))
 						case x < 5:
 							beh = fmt.Sprintf("dup:%d", r.Intn(2000))
+						}
+						if cl.Service == "c02r" && r.Intn(3) == 0 { // first attempt answered with an error status and a body, then as above
+							beh = "err" + beh
+							atomic.AddInt64(&nerr, 1)
 						}
 						q.ch = cl.Send(q.dsid, q.tok, beh, tmo, q.short, false)
 						if q.ch == nil { // id taken meanwhile by the other worker of this connection
@@ -562,7 +591,7 @@ func (e *env) runStorm(name string, rng *rand.Rand, nconn, workersPerConn, burst
 	for _, cl := range conns {
 		cl.Close()
 	}
-	return map[string]interface{}{"name": name, "requests": total, "errors": errs, "collisions": coll, "closed": closed, "reenc_conns": nre, "slowest_burst_ms": maxMs, "unanswered_before_settle": len(pending)}
+	return map[string]interface{}{"name": name, "requests": total, "errors": errs, "collisions": coll, "closed": closed, "reenc_conns": nre, "error_answers_retried": nerr, "slowest_burst_ms": maxMs, "unanswered_before_settle": len(pending)}
 }
 
 func startMosn(tmp string, up *xc02.Up) string {
@@ -577,6 +606,10 @@ func startMosn(tmp string, up *xc02.Up) string {
 			r.Match = v2.RouterMatch{Headers: []v2.HeaderMatcher{{Name: "service", Value: "c02x"}}}
 			r.Route.RequestHeadersToAdd = add("x-c02-req")
 			r.Route.ResponseHeadersToAdd = add("x-c02-resp")
+		}},
+		// c02r: retry_on: an upstream error answer (or reset) is retried, up to 3 times
+		{Prefix: "/", Cluster: "up", RetryOn: true, NumRetries: 3, Extra: func(r *v2.Router) {
+			r.Match = v2.RouterMatch{Headers: []v2.HeaderMatcher{{Name: "service", Value: "c02r"}}}
 		}},
 		// c02b (storm only): plain route, but the stream filter c02body reads and rewrites the request and response bodies.
 		// (proxy SetRequestData/SetResponseData refill the same buffer object, so bolt still forwards the raw frame: this
